@@ -19,6 +19,8 @@ namespace Search
 
 variable {σ π : Type}
 
+attribute [local instance] trivialPsInv
+
 /-! ### (B) the aspiration loop -/
 
 theorem aspiration_sim (c : Comp σ π) {L1 L2 : Limits} {N : Int} (h : SoftHard L1 L2 N) (fuel : Nat) (idD : Int) :
